@@ -224,6 +224,9 @@ func (e *Env) Tr(x *Expr) TTerm {
 					et = sl.Elem()
 				}
 			}
+			if es == "Val" {
+				return TTerm{S: fmt.Sprintf("(gat %s %s %s)", e.seq(es), a.S, i.S), Sort: es, T: et}
+			}
 			return TTerm{S: fmt.Sprintf("(select (select %s (sref %s)) (+ (soff %s) %s))", e.seq(es), a.S, a.S, i.S), Sort: es, T: et}
 		case "Str":
 			return TTerm{S: "(gs.at " + a.S + " " + i.S + ")", Sort: "Int"}
@@ -712,7 +715,7 @@ func (e *Env) call(x *Expr) TTerm {
 		}
 	case "at":
 		if need(3) {
-			return TTerm{S: fmt.Sprintf("(select (select (hq %s) (sref %s)) (+ (soff %s) %s))", a[0].S, a[1].S, a[1].S, a[2].S), Sort: "Val"}
+			return TTerm{S: fmt.Sprintf("(gat (hq %s) %s %s)", a[0].S, a[1].S, a[2].S), Sort: "Val"}
 		}
 	case "mhas":
 		if need(3) {
